@@ -37,12 +37,16 @@ func (P) ID() string { return "C12" }
 func (P) Rule() string {
 	return "case = 2-4 configuration bodies POSTed to the real martianhttp configure handler (and parsed by parse.FromJSON), each followed by 3-6 " +
 		"requests/responses run through the handler's active modifier; a body is a random tree (depth <= 5, width <= 4) over fifo.Group (with and " +
-		"without aggregateErrors), priority.Group (priorities with many ties), url/header/querystring/method/cookie filters (18 conditions, with and " +
-		"without else) and probe leaves registered through parse.Register (request-only/response-only/both/neither, optionally failing), with scope " +
-		"absent/null/[]/[request]/[response]/both/duplicated at every level; about a third of the bodies carry one or two defects (unknown name, " +
-		"unsupported or unknown scope, wrong JSON shape, non-JSON text); messages vary method, scheme, host, path, query, headers and cookies so that " +
-		"each condition is both true and false; distinct by hash of the op list; non-trivial when the case has an accepted tree of depth >= 3 and a " +
-		"message whose trace is not empty"
+		"without aggregateErrors), priority.Group (priorities with many ties), url/header/querystring/method/cookie/port filters (random parameters " +
+		"over small universes incl. host wildcards, escaped queries, pseudo-headers; with and without else) and probe leaves registered through " +
+		"parse.Register (request-only/response-only/both/neither, optionally failing), with scope absent/null/[]/[request]/[response]/both/duplicated " +
+		"at every level; about a third of the bodies carry one or two defects (unknown name, unsupported or unknown scope, wrong JSON shape, non-JSON " +
+		"text); exchanges are concrete (method, URL, raw query, Host/Content-Length/Transfer-Encoding, header lines, cookies), half of them bent " +
+		"towards a condition of the tree; plus wide cases (one group of 13-40 children, few distinct priorities in mixed patterns), JSON cases (the " +
+		"plain JSON value of a tree with 1-3 blind mutations: duplicate/folded/unknown members, nulls, number forms, wrong kinds, registry-level " +
+		"duplicates), matcher cases (single conditions, MatchHost and ParseQuery on arbitrary strings), the exhaustive two-level scope matrix and a " +
+		"concurrent tier (bodies POSTed while 2-6 goroutines run traffic); distinct by hash of the op list; non-trivial when the case has an " +
+		"accepted tree of depth >= 3 and a message whose trace is not empty"
 }
 
 func (P) Nontrivial(ops []string, impl []string) bool {
@@ -52,6 +56,13 @@ func (P) Nontrivial(ops []string, impl []string) bool {
 		if len(f) > 1 && f[0] == "post" && i < len(impl) && strings.HasPrefix(impl[i], "ok") {
 			if n, ok := parseTree(f[1:]); ok && n.depth() >= 3 {
 				deep = true
+			}
+		}
+		if len(f) > 2 && f[0] == "postj" && i < len(impl) && strings.HasPrefix(impl[i], "ok") {
+			if j, rest, ok := parseJV(f[2:], 0); ok && len(rest) == 0 {
+				if n := decodeJV(j); n != nil && n.depth() >= 3 {
+					deep = true
+				}
 			}
 		}
 		if len(f) > 0 && f[0] == "run" && i < len(impl) && strings.HasPrefix(impl[i], "t=") && !strings.HasPrefix(impl[i], "t=- ") {
